@@ -406,6 +406,25 @@ func c05Run(c *ev.Ctx) {
 				c.Violation("decode-mismatch:shape:"+fam, wit(map[string]any{"path": p, "decoded": o.Space.Dims, "written": d.Op.Dims}))
 				continue
 			}
+			if d.Family == "compound" {
+				// the member list an independent reader recovers from the datatype message
+				c.Count("compound_datatypes_compared", 1)
+				var got []string
+				if o.Type != nil {
+					for _, m := range o.Type.Members {
+						got = append(got, fmt.Sprintf("%s@%d", m.Name, m.Offset))
+					}
+				}
+				var want []string
+				off := uint32(0)
+				for _, f := range d.Op.Fields {
+					want = append(want, fmt.Sprintf("%s@%d", f.Name, off))
+					off += hx.FieldSize(f.DT)
+				}
+				if strings.Join(got, ",") != strings.Join(want, ",") {
+					c.Violation("decode-mismatch:compound-members", wit(map[string]any{"path": p, "decoded_members": got, "written_members": want, "datatype_bytes": fmt.Sprintf("%x", headB(o.Type.Raw, 48))}))
+				}
+			}
 			if src.Stale {
 				c.Count("datasets_resized_not_rewritten", 1)
 				continue
